@@ -299,8 +299,13 @@ C07_Exclusive(X) ==
        IN (<<ch, ad.cc>> # <<chN, ad.ccNeg>>) =>
             ~(Get0(X.ccv1, <<ch, ad.cc>>) > 0 /\ Get0(X.ccv1, <<chN, ad.ccNeg>>) > 0)
 
+\* "after every processed axis event": processed = not filtered as a repetition of the last value and not held back
+\* by cc-learning (the two filters the engine has, decided here from the inputs alone) - NOT "whatever the device
+\* chose to answer": an event the device drops for another reason leaves the receiver on the wrong side
+ProcessedAxis(X) == IsAxisIn(X) /\ X.br \notin {"AxisUndefined", "AxisDuplicate", "AxisLearningGate"}
+
 C07_SideMatches(X) ==
-  (Transmitted(X) /\ X.in.a \in BidiAxes(X.c, X.pre)) =>
+  (ProcessedAxis(X) /\ X.in.a \in BidiAxes(X.c, X.pre)) =>
      LET ad == AxisDef(X.c, X.pre, X.in.a)
          w == WorkPos(X.c, X.pre, X.in.a, X.in.raw)
          ch == (X.pre.chan + ad.off) % 16
